@@ -139,6 +139,12 @@ func kvLookupHelper(h *ssa.Function) bool {
 	if h == nil || h.Blocks == nil || errResultIndex(h) < 0 {
 		return false
 	}
+	// it hands out the record itself (an accessor of values or metadata that
+	// another accessor delegates to is judged as an accessor of its own)
+	res := h.Signature.Results()
+	if res.Len() != 2 || !eng.IsNamed(res.At(0).Type(), "db", "secret") {
+		return false
+	}
 	found := false
 	for _, m := range eng.MapOps(h) {
 		if m.SrcOK && isKVRole(curProg, m.Src, "secrets") && (m.Kind == "lookup" || m.Kind == "lookupok") {
